@@ -12,6 +12,7 @@ import GojaModel.C13.Export
 import GojaModel.C13.MapModel
 import GojaModel.C13.Gateway
 import GojaModel.C13.GoSlice
+import GojaModel.C13.Spec
 
 namespace GojaModel.C13.Driver
 open GojaModel.C13 GojaModel.Proto
@@ -114,6 +115,77 @@ def runW (ws : List String) : String :=
         let (d, outs) := acc
         let (d', pre) := runOp d tok
         (d', dump d' pre :: outs)) (({ s := init, seen := [] } : DSt), [])
+    " ; ".intercalate outs.reverse
+  | _ => "BADLINE"
+
+/-! ### WS / VS: the same histories through the SPEC model (documented semantics, Spec.lean) -/
+
+structure DSp where
+  s : Sp
+  seen : List Nat
+
+def dumpSp (d : DSp) (pre : String) : String :=
+  let sl := (List.range d.s.len).map (fun i => showInt (d.s.val i))
+  let hs := d.seen.map (fun w => showInt (d.s.readH w))
+  pre ++ "len=" ++ toString d.s.len ++ " s=[" ++ ",".intercalate sl ++ "] h=[" ++ ",".intercalate hs ++ "]"
+
+def observeSp (d : DSp) (i : Nat) : DSp × String :=
+  let (s', r) := d.s.getIdx i
+  match r with
+  | none => ({ d with s := s' }, "g=- ")
+  | some w =>
+    match handleNo d.seen w with
+    | some n => ({ d with s := s' }, "g=" ++ toString n ++ " ")
+    | none => ({ s := s', seen := d.seen ++ [w] }, "g=" ++ toString d.seen.length ++ " ")
+
+/-- documented sort: stable, ascending by value, wrappers move with their elements -/
+def sortSp (s : Sp) : Sp :=
+  let n := s.len
+  let rec bubble (fuel : Nat) (st : Sp) (j : Nat) : Sp :=
+    match fuel with
+    | 0 => st
+    | fuel + 1 =>
+      if j = 0 then st
+      else if st.val j < st.val (j - 1) then bubble fuel (st.step (.swap (j - 1) j)) (j - 1)
+      else st
+  if n < 2 then s else (List.range n).foldl (fun st i => bubble (i + 1) st i) s
+
+def runOpSp (d : DSp) (tok : String) : DSp × String :=
+  match tok.splitOn ":" with
+  | ["get", i] => observeSp d (nat! i)
+  | ["set", i, x] => ({ d with s := d.s.step (.set (nat! i) (int! x)) }, "")
+  | ["bad", i] => ({ d with s := d.s.step (.setBad (nat! i)) }, "")
+  | ["del", i] => ({ d with s := d.s.step (.del (nat! i)) }, "")
+  | ["len", n] => ({ d with s := d.s.step (.setLen (nat! n)) }, "")
+  | ["swap", i, j] => ({ d with s := d.s.step (.swap (nat! i) (nat! j)) }, "")
+  | ["ww", w, x] =>
+      match d.seen[nat! w]? with
+      | some wid => ({ d with s := d.s.step (.wwrite wid (int! x)) }, "")
+      | none => (d, "")
+  | ["gw", i, x] => ({ d with s := d.s.step (.goWrite (nat! i) (int! x)) }, "")
+  | ["ga", x] => ({ d with s := d.s.step (.goAppend (int! x)) }, "")
+  | ["gr", c] => ({ d with s := d.s.step (.goRealloc (nat! c)) }, "")
+  | ["ra", _] => (d, "")
+  | ["nop", _] => (d, "")
+  | ["sort"] => ({ d with s := sortSp d.s }, "")
+  | ["push", x] => ({ d with s := d.s.step (.set d.s.len (int! x)) }, "")
+  | ["pop"] =>
+      if d.s.len = 0 then (d, "g=- ") else
+      let i := d.s.len - 1
+      if d.s.fixed then ({ d with s := d.s.step (.del i) }, "g=- ") else
+      let (d1, pre) := observeSp d i
+      ({ d1 with s := (d1.s.step (.del i)).step (.setLen i) }, pre)
+  | _ => (d, "BADOP ")
+
+def runWS (ws : List String) : String :=
+  match ws with
+  | fixed :: cap :: vals :: "|" :: ops =>
+    let vs : List Int := if vals = "-" then [] else (vals.splitOn ",").map int!
+    let init := Sp.init (fixed = "1") vs.length (nat! cap) (fun i => vs.getD i 0)
+    let (_, outs) := ops.foldl (fun (acc : DSp × List String) tok =>
+        let (d, outs) := acc
+        let (d', pre) := runOpSp d tok
+        (d', dumpSp d' pre :: outs)) (({ s := init, seen := [] } : DSp), [])
     " ; ".intercalate outs.reverse
   | _ => "BADLINE"
 
@@ -362,6 +434,7 @@ def runI (ws : List String) : String :=
 def handle (line : String) : String :=
   match words line with
   | "W" :: rest => runW rest
+  | "WS" :: rest => runWS rest
   | "N" :: rest => runN rest
   | "F" :: rest => runF rest
   | "S" :: rest => runS rest
